@@ -336,6 +336,32 @@ prefix_harness!(c20_prefix_bool, 6, b'#');
 prefix_harness!(c20_prefix_inline_p, 6, b'P');
 prefix_harness!(c20_prefix_integer, 6, b':');
 prefix_harness!(c20_prefix_bulk, 7, b'$');
+/// Bulk strings with a CONCRETE declared length (the symbolic length digits of c20_prefix_bulk are
+/// what makes it take 40 minutes): "$0" + 4 arbitrary bytes and "$1" + 5 arbitrary bytes, every
+/// split point - in particular the split between the CR and the LF of the trailer.
+macro_rules! prefix_harness2 {
+    ($name:ident, $n:expr, $first:expr, $second:expr) => {
+        #[kani::proof]
+        #[kani::unwind(8)]
+        #[kani::stub(alloc::fmt::format, fmt_stub)]
+        #[kani::stub(parse_array, cut_assume)]
+        #[kani::stub(parse_double, cut_assume)]
+        #[kani::stub(parse_map, cut_assume)]
+        #[kani::stub(parse_set, cut_assume)]
+        fn $name() {
+            let mut data: [u8; $n] = kani::any();
+            data[0] = $first;
+            data[1] = $second;
+            let mut k = 1;
+            while k < $n {
+                prefix_lemma::<$n>(data, k);
+                k += 1;
+            }
+        }
+    };
+}
+prefix_harness2!(c20_prefix_blk_len0, 6, b'$', b'0');
+prefix_harness2!(c20_prefix_blk_len1, 7, b'$', b'1');
 
 // ---------------------------------------------------------------- allocation obligation
 // "never reserves memory according to a declared length it has not received": inside the
